@@ -29,14 +29,14 @@ def plan(tier):
         "required_obligations": ["tlc_behaviours_replayed", "ascending", "descending", "many_equal_starts",
                                  "large_tree", "from_iter", "query_unindexed_refused",
                                  "insert_after_index_then_refused", "reindexed",
-                                 "interior_levels_above_leaf_level", "query_absent_refid",
+                                 "interior_levels_above_leaf_level", "query_absent_refid", "empty_tree_indexed_and_queried",
                                  "array_tree_half_million_entries", "avl_half_million_entries"],
         "rule": "AVL: transition cover of the TLC state graph of the AVL machine (one behaviour per transition "
                 "from every distinct tree shape with <=5 (quick) / <=6 (thorough) intervals over 4 starts x 2 widths) "
                 "replayed into the real IntervalTree; the hook shape after EVERY insert must equal the model tree "
                 "(payload positions, max, height), find for all queries of the universe, find_mut observed through "
                 "its mutation; plus random histories n<=300 (ascending/descending/zig-zag/equal starts/nested). "
-                "Array tree: every n in 1..70 and random n<=300, hook array (order, every max, max_level) must equal "
+                "Array tree: every n in 0..70 and random n<=300, every second query through find_into with a reusable buffer still holding the hits of another tree, hook array (order, every max, max_level) must equal "
                 "the model after each index; un-indexed queries refused; re-index after further inserts. "
                 "Annotation map: 3 reference ids + an absent one, negative coordinates. Huge trees (2^19 .. 2^20+3 "
                 "entries, ascending and descending insertion) are arithmetic families [a*i, a*i+w) whose overlap "
